@@ -149,6 +149,42 @@ Theorem C15_tracked_valid_example :
       valid {| v_tys := circ_tys; v_main := doc_of circ_ins outs ops h; v_subs := [] |} = true.
 Proof. exact circuit_example. Qed.
 
+(* The premise stated on the TRACKED program.  `twf` (spec/TrackedWFS.v) is a boolean computed from the text of the
+   tracked program alone — it follows the tracked table symbolically, knows the output row of every node by name and
+   keeps the non-copyable wires still to be consumed: every integer names a tracked index at that moment; every wire
+   used (through an index or explicitly) is an existing output port; argument types are the operation's input row
+   (or complete a partial operation); the declared number of outputs is the operation's; every non-copyable wire is
+   consumed exactly once, by one later argument or by the final set_*_outputs.  A program it accepts lies in the
+   fragment, makes no builder call of the tracked-builder model raise, and its explicit translation is well formed
+   in the sense of C01 ... *)
+From HV Require Import spec.TrackedWFS proofs.TrackedWFP.
+Theorem C15_tracked_wf_sound : forall tys ins specs track p,
+  twf tys ins specs track p = true ->
+  tfrag p = true /\
+  (exists h tr, run_tracked (lenN ins) track p = (h, tr, None)) /\
+  wf_prog tys (to_builder ins specs (explicit_prog (lenN ins) track p)) = true.
+Proof. exact twf_sound. Qed.
+
+(* ... hence, with no premise about runs: every tracked program accepted by twf builds a HUGR whose document
+   (root, Input, Output, the added nodes in creation order, exactly the tracked builder's links) satisfies the whole
+   validity predicate. *)
+Theorem C15_wellformed_tracked_programs_valid : forall tys ins specs track p,
+  r_table tys = true ->
+  twf tys ins specs track p = true ->
+  exists h tr outs ops,
+    run_tracked (lenN ins) track p = (h, tr, None) /\
+    length ops = length (h_nodes h) /\ OpsOK tys specs ops /\
+    Builder.run tys (to_builder ins specs (explicit_prog (lenN ins) track p)) = Ok (doc_of ins outs ops h) /\
+    valid {| v_tys := tys; v_main := doc_of ins outs ops h; v_subs := [] |} = true.
+Proof. exact tracked_wf_programs_valid. Qed.
+
+(* the circuit of C15_tracked_valid_example is accepted by twf *)
+Theorem C15_tracked_wf_example : twf circ_tys circ_ins circ_specs false circ_prog = true.
+Proof. exact circuit_twf. Qed.
+
 Print Assumptions C15_plain_model_is_C01_builder.
 Print Assumptions C15_tracked_programs_valid.
 Print Assumptions C15_tracked_valid_example.
+Print Assumptions C15_tracked_wf_sound.
+Print Assumptions C15_wellformed_tracked_programs_valid.
+Print Assumptions C15_tracked_wf_example.
